@@ -30,7 +30,7 @@
 EXTENDS ArrangeSem, X690, Json, IOUtils
 
 CONSTANTS MaxSteps,      \* number of actions explored from a seed
-          EmitSteps,     \* transitions up to this many steps from the seed are emitted (-1: none)
+          EmitBelow,     \* transitions fewer than this many steps from the seed are emitted (0: none)
           SeedIds,       \* which seeds (subset of 1..NSeeds)
           SeedTagDefs,   \* module tag defaults the seeds are instantiated with
           MaxMods,       \* SplitModule is enabled while there are fewer modules than this
@@ -39,8 +39,6 @@ CONSTANTS MaxSteps,      \* number of actions explored from a seed
 VARIABLES gSeed, gArr, gPrev, gAct, gSched
 vars == <<gSeed, gArr, gPrev, gAct, gSched>>
 View == <<gSeed, gArr, gPrev, gAct>>       \* the schedule is a witness, not part of the state identity
-
-TG == INSTANCE TypeGen WITH MaxDepth <- 0, Rich <- FALSE, TagDefs <- {"E"}, gEnv <- 0, gT <- 0, gDepth <- 0
 
 ------------------------------------------------------------------------------
 (* constructors                                                             *)
@@ -73,8 +71,8 @@ Alt(n, t) == [n |-> n, t |-> t]
 TChoice(alts) == [k |-> "CHOICE", tags |-> <<>>, root |-> alts, ext |-> FALSE, adds |-> <<>>]
 NoSz == [f |-> "N"]
 TOf(k, e, sz) == [k |-> k, tags |-> <<>>, e |-> e, sz |-> sz]
-SeqOf(e) == TOf("SEQOF", e, NoSz)
-SeqOfSz(e, lb, ub) == TOf("SEQOF", e, [f |-> "R", lb |-> lb, ub |-> ub, ubinf |-> FALSE, ext |-> FALSE])
+ListOf(e) == TOf("SEQOF", e, NoSz)
+ListOfSz(e, lb, ub) == TOf("SEQOF", e, [f |-> "R", lb |-> lb, ub |-> ub, ubinf |-> FALSE, ext |-> FALSE])
 Asg(n, t) == [n |-> n, t |-> t]
 Imp(from, syms) == [from |-> from, syms |-> syms]
 Mod(name, td, imp, asg) == [name |-> name, td |-> td, imp |-> imp, asg |-> asg]
@@ -97,33 +95,36 @@ Seed(k, td) ==
    [] k = 2 ->    \* untagged components (automatic tagging applies under "A"), inline and named SEQUENCEs
     [mods |-> << Mod("M", td, <<>>, <<
        Asg("Top", TSeq(<< Def("b", Ref("Bo"), FALSE), Opt("i", TIntR(0, 255)), Def("e", Ref("En"), "c"),
+                          Opt("t", Ref("Tn")),
                           Mand("m", TSeq(<< Mand("u", TNull), Def("v", Ref("Bo"), TRUE) >>)),
                           Opt("n", Ref("Pt")), Mand("z", TOcts) >>)),
        Asg("Pt", TSeq(<< Mand("p", TBool), Opt("q", TInt) >>)),
-       Asg("Bo", TBool), Asg("En", Enum3) >>) >>]
+       Asg("Bo", TBool), Asg("En", Enum3), Asg("Tn", Tg(TIntR(0, 255), "C", 5, "D")) >>) >>]
    [] k = 3 ->    \* CHOICE (nested), references to tagged types, tags on references to CHOICE, SEQUENCE OF references
     [mods |-> << Mod("M", td, <<>>, <<
        Asg("Ch", TChoice(<< Alt("a", TIntR(0, 7)), Alt("b", TBool),
                             Alt("n", TChoice(<< Alt("x", TNull), Alt("y", TOcts) >>)) >>)),
        Asg("Tn", Tg(TIntR(0, 255), "C", 5, "D")),
-       Asg("Li", SeqOf(Ref("Ch"))),
+       Asg("Li", ListOf(Ref("Ch"))),
        Asg("Top", TSeq(<< Mand("c", Cx(Ref("Ch"), 1)), Opt("t", Ref("Tn")), Mand("u", Cx(Ref("Li"), 2)),
-                          Mand("l", SeqOfSz(Ref("Tn"), 0, 3)),
+                          Mand("l", ListOfSz(Ref("Tn"), 0, 3)),
                           Opt("k", Cx(TChoice(<< Alt("r", Ref("Tn")), Alt("s", Cx(Ref("Ch"), 6)) >>), 3)) >>)) >>) >>]
    [] k = 4 ->    \* (mutual) recursion through SEQUENCE OF, OPTIONAL and CHOICE
     [mods |-> << Mod("M", td, <<>>, <<
        Asg("Top", TSeq(<< Mand("r", Ref("Rec")), Opt("t", Cx(Ref("Tr"), 0)) >>)),
-       Asg("Rec", TSeq(<< Mand("v", TIntR(0, 7)), Mand("kids", SeqOfSz(Ref("Rec"), 0, 2)), Opt("next", Ref("Tr")) >>)),
+       Asg("Rec", TSeq(<< Mand("v", TIntR(0, 7)), Mand("kids", ListOfSz(Ref("Rec"), 0, 2)), Opt("next", Ref("Tr")) >>)),
        Asg("Tr", TChoice(<< Alt("leaf", TBool), Alt("node", Ref("Rec")) >>)) >>) >>]
    [] k = 5 ->    \* two modules with different tag defaults, IMPORTS, the same name defined differently in both
-    [mods |-> << Mod("A", td, << Imp("Bm", <<"Bt", "En">>) >>, <<
+    [mods |-> << Mod("A", td, << Imp("Bm", <<"Bt", "Cu", "En">>) >>, <<
                    Asg("Aux", TIntR(0, 7)),
-                   Asg("Top", TSeq(<< Mand("x", Ref("Bt")), Mand("a", Ref("Aux")), Mand("w", SeqOfSz(Ref("Aux"), 0, 2)),
+                   Asg("Top", TSeq(<< Mand("x", Ref("Bt")), Mand("a", Ref("Aux")), Mand("c", Ref("Cu")),
+                                      Mand("w", ListOfSz(Ref("Aux"), 0, 2)),
                                       Opt("y", Ref("Bt")), Def("e", Ref("En"), "b") >>)) >>),
                  Mod("Bm", OtherTd(td), <<>>, <<
                    Asg("Aux", TBool),
                    Asg("Bt", TSeq(<< Mand("p", Ref("Aux")), Opt("q", TChoice(<< Alt("m", TNull), Alt("n", TIntR(0, 255)) >>)),
                                      Def("r", Ref("Aux"), TRUE) >>)),
+                   Asg("Cu", TSeq(<< Mand("g", TBool), Opt("h", TChoice(<< Alt("m", TNull), Alt("n", TIntR(0, 255)) >>)) >>)),
                    Asg("En", Enum3) >>) >>]
    [] k = 6 ->    \* COMPONENTS OF across two modules with the same tag default; extension marker in the source
     [mods |-> << Mod("A", td, << Imp("Bm", <<"Ba">>) >>, <<
@@ -176,8 +177,6 @@ SetAt(T, p, U) ==
   ELSE LET s == Head(p) IN
        CASE s[1] \in {"r", "c"} -> [T EXCEPT !.root[s[2]].t = SetAt(@, Tail(p), U)]
          [] s[1] = "e" -> [T EXCEPT !.e = SetAt(@, Tail(p), U)]
-
-Front(p) == SubSeq(p, 1, Len(p) - 1)
 
 \* X.680 25.9 / 29.3 on the text: would this SEQUENCE / SET / CHOICE be tagged automatically?
 AutoOf(td, P) ==
@@ -258,23 +257,25 @@ InlinePlan(arr, mi, ai, p) ==
       hi == Home(arr, mi, R.name)
       hmod == arr.mods[hi]
       D == hmod.asg[AsgIndex(hmod, R.name)].t
+      sameTd == hmod.td = mod.td \/ Mutation = "InlineCopiesTextAcrossTagDefaults"
+      \* Within one tag default the text is copied as it is.  A definition that moves to a module
+      \* with another tag default is copied with its tag modes and automatic tags written out
+      \* (what its text meant where it stood); G is only needed for that.
       G == GEnv(arr)
-      \* the copy, over qualified names.  Within one tag default the text is copied as it is;
-      \* a definition that moves to a module with another tag default is copied with its tag modes
-      \* and automatic tags written out (what its text meant where it stood)
-      Cq == IF hmod.td = mod.td \/ Mutation = "InlineCopiesTextAcrossTagDefaults"
-            THEN Qual(arr, hi, D)
+      Cq == IF sameTd THEN Qual(arr, hi, D)
             ELSE Tree(G, Qual(arr, hi, D), Ctx(hmod.td, hi), {}, DOMAIN G.types, 99)
-      usesQ == RefsOf(Cq)
-      \* every name the copy uses must denote the same assignment in module mi
-      nameOk(q) == LET l == G.loc[q] IN
-                   IF Visible(mod, l) THEN QName(arr, mi, l) = q
-                   ELSE \A q2 \in usesQ : G.loc[q2] = l => q2 = q
-      newImports == GroupImports({[from |-> G.mod[q], sym |-> G.loc[q]] : q \in {x \in usesQ : ~Visible(mod, G.loc[x])}})
-      C == Unqual(G, Cq)
-      U == [C EXCEPT !.tags = R.tags \o C.tags]
+      C == IF sameTd THEN D ELSE Unqual(G, Cq)
+      \* the names the copy uses: [q : qualified, l : as written, from : defining module]
+      uses == IF sameTd
+              THEN {[q |-> QName(arr, hi, n), l |-> n, from |-> arr.mods[Home(arr, hi, n)].name] : n \in RefsOf(D)}
+              ELSE {[q |-> q, l |-> G.loc[q], from |-> G.mod[q]] : q \in RefsOf(Cq)}
+      \* every name the copy uses must denote the same assignment when written in module mi
+      nameOk(u) == IF Visible(mod, u.l) THEN QName(arr, mi, u.l) = u.q
+                   ELSE \A u2 \in uses : u2.l = u.l => u2.q = u.q
+      newImports == GroupImports({[from |-> u.from, sym |-> u.l] : u \in {x \in uses : ~Visible(mod, x.l)}})
+      U == [C EXCEPT !.tags = R.tags \o @]
       T2 == SetAt(T, p, U)
-  IN [U |-> U, T2 |-> T2, namesOk |-> \A q \in usesQ : nameOk(q), imports |-> Force(newImports),
+  IN [U |-> U, T2 |-> T2, namesOk |-> \A u \in uses : nameOk(u), imports |-> Force(newImports),
       before |-> ParentAt(T, p), after |-> ParentAt(T2, p), td |-> mod.td]
 
 \* side conditions under which Inline keeps the meaning
@@ -287,8 +288,8 @@ InlineOk(pl) ==
 
 \* merge import clauses (same source module: one clause)
 AddImports(imp, more) ==
-  LET all == {[from |-> imp[k].from, sym |-> imp[k].syms[h]] : k \in 1..Len(imp), h \in 1..Len(imp[k].syms)} \cup
-             {[from |-> more[k].from, sym |-> more[k].syms[h]] : k \in 1..Len(more), h \in 1..Len(more[k].syms)}
+  LET pairsOf(cl) == UNION {{[from |-> cl[k].from, sym |-> cl[k].syms[h]] : h \in 1..Len(cl[k].syms)} : k \in 1..Len(cl)}
+      all == pairsOf(imp) \cup pairsOf(more)
   IN IF more = <<>> THEN imp ELSE Force(GroupImports(all))
 
 InlineOf(arr, mi, ai, pl) ==
@@ -371,9 +372,17 @@ Extract ==
                /\ ExtractOk(pl)
                /\ Step(Act("Extract", mi, ai, ps[h], mv, <<>>), ExtractOf(gArr, mi, ai, pl))
 
+\* Permutations commute with the structural actions (up to renumbering of positions) and the new
+\* assignment / module of Extract / SplitModule is placed last, so every arrangement reachable in n
+\* steps is reachable in n steps by a schedule "structural actions first, then permutations":
+\* only those schedules are explored.
+Permuting == gAct.a \in {"PermuteAssignments", "PermuteModules"}
+
 Next ==
   /\ Len(gSched) < MaxSteps
-  /\ PermuteAssignments \/ PermuteModules \/ SplitModule \/ Inline \/ Extract
+  /\ \/ PermuteAssignments
+     \/ PermuteModules
+     \/ ~Permuting /\ (SplitModule \/ Inline \/ Extract)
 
 Spec == Init /\ [][Next]_vars
 
@@ -404,18 +413,71 @@ TreeEq(a, b) ==
        [] a.k \in {"SEQOF", "SETOF"} -> a.sz = b.sz /\ TreeEq(a.e, b.e)
        [] OTHER -> a = b
 
-\* the invariant of C19 on the model: no action changes what the probe type means
-MeaningPreserved == TreeEq(Meaning(gArr), Meaning(gPrev))
+\* the invariant of C19 on the model: no action changes what the probe type means.
+\* MeaningPreservedStep is the statement; MeaningPreserved is the same by induction over the
+\* schedule (every arrangement means what its seed means) and needs one Meaning per state.
+TdIndex(td) == CASE td = "E" -> 1 [] td = "I" -> 2 [] td = "A" -> 3
+SeedMeaning == Force([k \in 1..NSeeds |-> Force([t \in 1..3 |-> Meaning(Seed(k, <<"E", "I", "A">>[t]))])])
+MeaningPreservedStep == TreeEq(Meaning(gArr), Meaning(gPrev))
+MeaningPreserved == TreeEq(Meaning(gArr), SeedMeaning[gSeed.k][TdIndex(gSeed.td)])
 
 ArrangementWellFormed == WfArr(gArr)
 
-\* the value table of a seed: boundary values of the probe type, type-directed (TypeGen!Values)
+------------------------------------------------------------------------------
+(* the value table of a seed: boundary values of the probe type, built       *)
+(* type-directed like TypeGen!Values (a SEQUENCE takes a base value and      *)
+(* one-hot variations of every component, OPTIONAL / DEFAULT ones also       *)
+(* absent; a CHOICE every alternative; fuel bounds recursive types)          *)
+
+DedupSeq(s) == FoldLeft(LAMBDA acc, x : IF \E i \in 1..Len(acc) : acc[i] = x THEN acc ELSE Append(acc, x), <<>>, s)
+
+LeafValues(t) ==
+  CASE t.k = "BOOL" -> <<TRUE, FALSE>>
+    [] t.k = "NULL" -> <<"NULL">>
+    [] t.k = "INT" -> IF t.con.f = "N" THEN <<FromInt(0), FromInt(-1), FromInt(128), FromInt(65536)>>
+                      ELSE DedupSeq(<<t.con.lb, t.con.ub, Succ(t.con.lb)>>)
+    [] t.k = "ENUM" -> [i \in 1..Len(AllAlts(t)) |-> AllAlts(t)[i].n]
+    [] t.k = "BITS" -> LET n == IF t.sz.f = "N" THEN 3 ELSE t.sz.lb
+                       IN << [n |-> n, b |-> BitsToBytes([i \in 1..n |-> i % 2])],
+                             [n |-> n, b |-> BitsToBytes([i \in 1..n |-> 1])],
+                             [n |-> n, b |-> BitsToBytes([i \in 1..n |-> 0])] >>
+    [] t.k = "OCTS" -> LET lo == IF t.sz.f = "N" THEN 0 ELSE t.sz.lb
+                           hi == IF t.sz.f = "N" THEN 3 ELSE t.sz.ub
+                       IN DedupSeq(<< [j \in 1..lo |-> (j * 37) % 256], [j \in 1..hi |-> (j * 91 + 7) % 256] >>)
+
+RECURSIVE ValuesOf(_, _, _)
+ValuesOf(e, t, fuel) ==
+  CASE t.k = "REF" -> ValuesOf(e, e.types[t.name], IF fuel = 0 THEN 0 ELSE fuel - 1)
+    [] t.k \in {"SEQ", "SET"} ->
+         LET ms == AllMembers(t)
+             names == {ms[i].n : i \in 1..Len(ms)}
+             allvs == Force([i \in 1..Len(ms) |-> IF fuel = 0 /\ ms[i].q # "M" THEN <<>> ELSE ValuesOf(e, ms[i].t, fuel)])
+             first(i) == IF allvs[i] = <<>> THEN Absent ELSE Present(allvs[i][1])
+             base == [nm \in names |-> first(MemberIndex(ms, nm))]
+             hot(i) == [j \in 1..Max2(0, Len(allvs[i]) - 1) |-> [base EXCEPT ![ms[i].n] = Present(allvs[i][j + 1])]]
+                       \o (IF (ms[i].q # "M" \/ i > Len(t.root)) /\ allvs[i] # <<>> THEN <<[base EXCEPT ![ms[i].n] = Absent]>> ELSE <<>>)
+         IN <<base>> \o Concat([i \in 1..Len(ms) |-> hot(i)])
+    [] t.k = "CHOICE" ->
+         LET alts == AllAlts(t)
+             pick(i) == IF fuel = 0 /\ i > 1 THEN <<>>
+                        ELSE LET vs == ValuesOf(e, alts[i].t, fuel)
+                             IN [j \in 1..Min2(Len(vs), IF fuel = 0 THEN 1 ELSE 2) |-> [a |-> alts[i].n, v |-> vs[j]]]
+         IN Concat([i \in 1..Len(alts) |-> pick(i)])
+    [] t.k \in {"SEQOF", "SETOF"} ->
+         LET lo == IF t.sz.f = "N" THEN 0 ELSE t.sz.lb
+             hi == IF t.sz.f = "N" THEN 2 ELSE t.sz.ub
+             ev == Force(ValuesOf(e, t.e, fuel))
+             mk(n, off) == [j \in 1..n |-> ev[((j + off) % Len(ev)) + 1]]
+         IN IF fuel = 0 \/ ev = <<>> THEN (IF lo = 0 THEN <<(<<>>)>> ELSE <<mk(lo, 0)>>)
+            ELSE DedupSeq(<<mk(hi, 0), mk(lo, 1), mk(Min2(hi, lo + 1), 2)>>)
+    [] OTHER -> LeafValues(t)
+
 MaxVals == 12
 Sample(vs, n) ==
   IF Len(vs) <= n THEN vs
   ELSE [i \in 1..n |-> vs[1 + (((i - 1) * (Len(vs) - 1)) \div (n - 1))]]
 SeedEnv(sd) == NFEnv(Seed(sd.k, sd.td), {})
-SeedVals(sd) == LET e == SeedEnv(sd) IN Sample(TG!Values(e, e.types[ProbeName], 2), MaxVals)
+SeedVals(sd) == LET e == SeedEnv(sd) IN Sample(ValuesOf(e, e.types[ProbeName], 2), MaxVals)
 
 \* ... and therefore no action changes an encoding (checked with the DER rules of X690.tla)
 EncodingPreserved ==
@@ -455,7 +517,7 @@ Line ==
      ELSE base
 
 Emit ==
-  Len(gSched) <= EmitSteps =>
+  Len(gSched) < EmitBelow =>
     Serialize(ToJson(Line) \o "\n", IOEnv.OUT_FILE,
               [format |-> "TXT", charset |-> "UTF-8", openOptions |-> <<"WRITE", "CREATE", "APPEND">>]).exitValue = 0
 
